@@ -137,6 +137,19 @@ class RunCtx(object):
                     return {"xcls": cname, "reason": "the extractor's own reason", "exception": "not.the.Class",
                             "action_status": "succeeded"}
                 self.register_extractor(cls, fn)
+            elif mode == "cross":
+                # fails with an exception of a class that ANOTHER failing extractor is registered for (a ring):
+                # reporting one extractor's failure must not consult the extractors again
+                ring = [c for c, m in specs if m == "cross"]
+                other = EXC_CLASSES[ring[(ring.index(cname) + 1) % len(ring)]]
+
+                def fn(e, cname=cname, other=other):
+                    self.count_fault("extr_raise_cross")
+                    try:
+                        raise other("extractor for %s failed with somebody else's class" % cname)
+                    except TypeError:
+                        raise ExtractorBoom("extractor for %s failed" % cname)
+                self.register_extractor(cls, fn, raises=True)
             else:
                 def fn(e, cname=cname):
                     raise ExtractorBoom("extractor for %s failed" % cname)
